@@ -825,20 +825,18 @@ def call_uf(P, f, args, kwargs):
             parts.append(v.name)
         elif isinstance(v, (tuple, list)):
             # concrete-length sequence: a recursive function over it is simply executed
+            # (a symbolic measure would not terminate: caught by the call-depth limit)
             if kind == 'recursive':
-                parts.append(None)
-            else:
-                raise Unsupported(f'{info.name}: uninterpreted spec function over a concrete sequence')
+                return NOT_HANDLED
+            raise Unsupported(f'{info.name}: uninterpreted spec function over a concrete sequence')
         elif v is None:
             parts.append('None')
         elif isinstance(v, str):
             parts.append(repr(v))
         else:
             raise Unsupported(f'{info.name}: argument {a.arg}={v!r} of an uninterpreted spec function')
-    if kind == 'recursive' and (ground or None in parts):
-        if None in parts and not ground:
-            raise Unsupported(f'{info.name}: recursive spec function over a concrete sequence with a symbolic measure')
-        return NOT_HANDLED          # all measures concrete: plain execution terminates
+    if kind == 'recursive' and ground:
+        return NOT_HANDLED          # all scalar arguments concrete: plain execution terminates
     if info.node.returns is None:
         raise InterpError(f'{info.qualname}: uninterpreted/recursive spec functions need a return annotation')
     rt = P.ex.types.parse(info.node.returns, info.module.name, None)
@@ -1262,3 +1260,38 @@ def opaque_binop(op, a, b):
     if op is ast.Add and strlike(a) and strlike(b):
         return Opaque('str')
     raise Unsupported(f'binop {op.__name__} on opaque values {a!r}, {b!r}')
+
+
+# --------------------------------------------------------------------------- termination measures
+
+def lex_less(P, new, old):
+    """new < old in the lexicographic order of measure tuples.  Components: ints (0 <= new < old)
+    or values of a structural value type (new is an immediate sub-term of old: well-founded,
+    the values are finite trees)."""
+    if not isinstance(new, tuple):
+        new = (new,)
+    if not isinstance(old, tuple):
+        old = (old,)
+    if len(new) != len(old) or not new:
+        raise InterpError('decreases: measures must be tuples of the same non-zero length')
+
+    def less(a, b):
+        if isinstance(a, SymADT) and isinstance(b, SymADT) and a.fam is b.fam:
+            alts = []
+            for c in b.fam.ctors:
+                for an, acc in c.acc.items():
+                    if acc.range() == b.fam.sort:
+                        alts.append(z3.And(c.recog(b.term), a.term == acc(b.term)))
+            return z3.Or(alts) if alts else z3.BoolVal(False)
+        if is_intlike(a) and is_intlike(b):
+            return z3.And(as_z3int(a) >= 0, as_z3int(a) < as_z3int(b))
+        raise InterpError(f'decreases: cannot compare {a!r} and {b!r}')
+
+    def eq(a, b):
+        r = P.equal(a, b)
+        return as_z3bool(P.truthy(r))
+
+    goal = z3.BoolVal(False)
+    for i in range(len(new) - 1, -1, -1):
+        goal = z3.Or(less(new[i], old[i]), z3.And(eq(new[i], old[i]), goal)) if i < len(new) - 1 else less(new[i], old[i])
+    return simp(goal)
